@@ -171,6 +171,10 @@ pub(super) fn start_background_workers(fsync_schedule: FsyncSchedule) -> Arc<mps
             }
 
             // Phase 5: Periodic cleanup
+            #[cfg(walrus_verif_small)]
+            if tick.load(Ordering::Relaxed) == 2 {
+                tick.store(999, Ordering::Relaxed); // verification geometry: reclaim every 3rd tick
+            }
             let n = tick.fetch_add(1, Ordering::Relaxed) + 1;
             if n >= 1000 {
                 // WARN: we clean up once every 1000 times the fsync runs
